@@ -4,16 +4,16 @@ import json, hashlib, os
 
 def sig(rec, clauses):
     k = rec.get("k")
-    s = {"component": {"schur": "schur", "schurO": "schur", "pattern": "schur", "cpr": "cpr", "cprupd": "cpr", "cprO": "cpr", "cprdev": "cpr",
+    s = {"component": {"schur": "schur", "schurO": "schur", "schurK": "schur", "pattern": "schur", "cpr": "cpr", "cprupd": "cpr", "cprO": "cpr", "cprdev": "cpr",
                        "defl": "deflated_solver", "deflmt": "deflated_solver", "reuse": "solver-reuse"}.get(k, str(k))}
     if k == "pattern":
         s.update(clause="pmask_pattern", pattern=rec.get("pattern"))
-    elif k in ("schur", "schurO"):
+    elif k in ("schur", "schurO", "schurK"):
         K, pm = rec.get("K"), rec.get("pm")
         if K and pm:
             ppdiag = all((not pm[i]) or (i in K["col"][K["ptr"][i]:K["ptr"][i + 1]]) for i in range(K["n"]))
         else:
-            ppdiag = bool(rec.get("ppdiag"))
+            ppdiag = bool(rec.get("ppdiag", True))
         s.update(clause="schur-operator" if any("schur-operator" in c for c in clauses) else "apply",
                  adjust_p=rec.get("adjust"), type=rec.get("type"), pressure_diagonal_stored=ppdiag)
     elif k == "cprupd":
@@ -75,11 +75,11 @@ def run(c):
     ], max_workers=3)
     teeth = pinned[2:]
     pinned = pinned[:2]
-    modes = ["schur", "schurO", "pattern", "cpr", "cprO", "defl", "deflmt", "reuse"]
+    modes = ["schur", "schurO", "schurK", "pattern", "cpr", "cprO", "defl", "deflmt", "reuse"]
     # deflmt: the set-up loops with 4 really overlapping threads (data races are a matter of timing)
     menv = {"deflmt": {"OMP_NUM_THREADS": 4, "OMP_WAIT_POLICY": "passive"}}
     traces = c.parallel([(lambda m=m: c.record(rc, [m], out=c.path("comp-%s.ndjson" % m), timeout=1200, env=menv.get(m)))
-                         for m in modes], max_workers=8)
+                         for m in modes], max_workers=9)
     results = c.parallel([(lambda i=i: c.tlc_trace("C18Trace", traces[i], label=modes[i], chunk=1500, env=tenv)) for i in range(len(modes))],
                          max_workers=3)
     drift = {"drift0": 0, "drift1": 0}
